@@ -41,11 +41,11 @@ DECLS == TLCEval(<<
    table |-> [lin |-> <<>>, next |-> <<<<1, 1>>>>, k |-> 0], freq |-> C(2), vals |-> <<{1, 2}, {1, 2}, {0, 1, 2}>>]
 >>)
 
-Groups == {[did |-> did, kind |-> "group", tr |-> <<>>] : did \in DIDS}
-CasesOf(g) == LET d == DECLS[g.did] IN
-  LET U == UNION {d.vals[c] : c \in 1..d.cols}
-      Rows == {row \in [1..d.cols -> U] : \A c \in 1..d.cols : row[c] \in d.vals[c]}
-  IN  {[g EXCEPT !.kind = "case", !.tr = tr] : tr \in [1..N -> Rows]}
+\* fan-out over the first row so that TLC's workers share the cases
+RowsD(d) == LET U == UNION {d.vals[c] : c \in 1..d.cols}
+            IN  {row \in [1..d.cols -> U] : \A c \in 1..d.cols : row[c] \in d.vals[c]}
+Groups == UNION {{[did |-> did, kind |-> "group", tr |-> <<row>>] : row \in RowsD(DECLS[did])} : did \in DIDS}
+CasesOf(g) == {[g EXCEPT !.kind = "case", !.tr = g.tr \o rest] : rest \in [1..(N - 1) -> RowsD(DECLS[g.did])]}
 Init == s \in Groups
 Next == s.kind = "group" /\ s' \in CasesOf(s)
 
